@@ -1,4 +1,5 @@
 import ArrProofs.Lemmas.Index
+import ArrProofs.Lemmas.C02Ext
 /-!
 # C02 — coordinates and flat positions are a row-major bijection
 
@@ -167,5 +168,438 @@ example : (⟨List.range 24, [2, 3, 4]⟩ : Arr Nat).atc [1, 2, 3] = .ok 23 := b
 example : (⟨List.range 24, [2, 3, 4]⟩ : Arr Nat).indexToCoord 23 = .ok [1, 2, 3] := by decide
 example : (⟨List.range 24, [2, 3, 4]⟩ : Arr Nat).atc [1, 3, 0] = .err .ParameterError := by decide
 example : lexLt [0, 2, 3] [1, 0, 0] = true := by decide
+
+/-! ## extension: the two remaining lookup operations, `slice(range)` and `indices_at(indices)`
+
+Model: `ArrModel/IndexExt.lean` (`Arr.slice`, `Arr.indicesAt`), transcribing `indexing.rs:183-234` arm for arm
+(`indices_at` after the repair fixes/C02-indices-at-empty-rows.diff).
+The theorems state what the code does for every shape, range and index list.  For rank ≥ 2 the code of `slice` places
+the window at flat offset `new_shape[0] * start`, which is the offset of row `start` only when `start = 0` or when the
+leading length of the result equals the row size (`slice_nd_rows`, `slice_nd_row`); otherwise the rows returned are not
+rows `start..stop` (`slice_nd_window_get` says which elements they are; see the counterexamples at the end and
+fixes/C02-slice-row-offset.md).  No property statement speaks about `slice`, so this is recorded, not repaired. -/
+
+/-- the window `slice` cuts out of the flat element list for rank ≥ 2: refused when it is empty or leaves the buffer -/
+def sliceWindow (a : Arr α) (off : Nat) (shape : List Nat) : Res (Arr α) :=
+  if shape.prod = 0 ∨ a.len < off + shape.prod then .err .OutOfBounds
+  else .ok ⟨(a.elems.drop off).take shape.prod, shape⟩
+
+/-- **slice, invalid range** (every rank, every array): `start > end` or `end > len` is an error value -/
+theorem slice_invalid (a : Arr α) (start stop : Nat) (h : stop < start ∨ a.len < stop) :
+    a.slice start stop = .err .OutOfBounds := by
+  unfold Arr.slice
+  rw [if_pos]
+  unfold Arr.len at h
+  rcases h with h | h
+  · have : decide (start ≤ stop) = false := by simpa using h
+    simp [this]
+  · have : decide (stop ≤ a.elems.length) = false := by simpa using h
+    simp [this]
+
+/-- **slice, 1-D**: a valid range returns exactly the sub-list `start..stop`, as a 1-D array of that length -/
+theorem slice_1d (a : Arr α) (n : Nat) (hs : a.shape = [n]) (start stop : Nat) (h1 : start ≤ stop) (h2 : stop ≤ a.len) :
+    a.slice start stop = .ok ⟨(a.elems.drop start).take (stop - start), [stop - start]⟩ := by
+  unfold Arr.slice
+  rw [slice_valid_unfold a start stop h1 h2]
+  simp only [Bool.false_eq_true, if_false, hs, List.length_singleton, if_true]
+  rw [vrange_ok a.elems start stop h1 h2, Res.bind_ok]
+  have h2' : stop ≤ a.elems.length := h2
+  unfold Arr.flat
+  congr 2
+  simp only [List.length_take, List.length_drop]; rw [Nat.min_eq_left (by omega)]
+
+/-- 1-D, element by element: position `i` of the result is position `start + i` of the input -/
+theorem slice_1d_get (a : Arr α) (n : Nat) (hs : a.shape = [n]) (start stop : Nat) (h1 : start ≤ stop) (h2 : stop ≤ a.len)
+    (i : Nat) (hi : i < stop - start) :
+    ∃ r, a.slice start stop = .ok r ∧ r.get? [i] = a.get? [start + i] := by
+  refine ⟨_, slice_1d a n hs start stop h1 h2, ?_⟩
+  unfold Arr.get?
+  simp only [hs, ravel, List.prod_nil, Nat.mul_one, Nat.add_zero]
+  exact getElem?_window _ _ _ _ hi
+
+/-- **slice, rank ≥ 2, closed form** (every array, every valid range; `w = stop - start`):
+* `w ≥ shape[0]` — whatever `start` is — returns the array itself;
+* `2 ≤ w < shape[0]`: the `w * row` elements from flat offset `w * start`, shape `w :: shape[1..]`;
+* `w ≤ 1 < …` (`w = 1`, and also the empty range `w = 0`): the first axis is dropped; the `row` elements from flat
+  offset `shape[1] * start`, shape `shape[1..]`;
+  in both cases an error when the window is empty or leaves the buffer. -/
+theorem slice_nd (a : Arr α) (d0 d1 : Nat) (t : List Nat) (hs : a.shape = d0 :: d1 :: t)
+    (start stop : Nat) (h1 : start ≤ stop) (h2 : stop ≤ a.len) :
+    a.slice start stop =
+      if d0 ≤ stop - start then .ok a
+      else if 2 ≤ stop - start then sliceWindow a ((stop - start) * start) ((stop - start) :: d1 :: t)
+      else sliceWindow a (d1 * start) (d1 :: t) := by
+  unfold Arr.slice
+  rw [slice_valid_unfold a start stop h1 h2]
+  have h2' : stop ≤ a.elems.length := h2
+  simp only [Bool.false_eq_true, if_false, hs, List.length_cons]
+  rw [if_neg (by omega)]
+  simp only [Res.idx, List.getElem?_cons_zero, Res.bind_ok, List.drop_succ_cons, List.drop_zero, ge_iff_le, gt_iff_lt]
+  by_cases hc : d0 ≤ stop - start
+  · rw [if_pos hc, if_pos hc]
+  · rw [if_neg hc, if_neg hc]
+    unfold sliceWindow Arr.len
+    by_cases hw : 2 ≤ stop - start
+    · rw [if_pos (by omega), if_pos hw]
+      simp only [List.getElem?_cons_zero, Res.bind_ok]
+      by_cases he : ((stop - start) :: d1 :: t).prod = 0 ∨ (stop - start) * start + ((stop - start) :: d1 :: t).prod > a.elems.length
+      · rw [if_pos he, if_pos (by omega)]
+      · rw [if_neg he, if_neg he]
+        exact sliceCopy a.elems _ _ _ (by omega) (by omega)
+    · rw [if_neg (by omega), if_neg hw]
+      simp only [List.getElem?_cons_zero, Res.bind_ok]
+      by_cases he : (d1 :: t).prod = 0 ∨ d1 * start + (d1 :: t).prod > a.elems.length
+      · rw [if_pos he, if_pos (by omega)]
+      · rw [if_neg he, if_neg he]
+        exact sliceCopy a.elems _ _ _ (by omega) (by omega)
+
+/-- **windows of length ≥ 2, by coordinates**: shape `w :: shape[1..]`, consistent, and entry `(i :: c)` is the element at
+flat position `w * start + (position of (i :: c) in the result)` -/
+theorem slice_nd_window_get (a : Arr α) (d0 d1 : Nat) (t : List Nat) (hs : a.shape = d0 :: d1 :: t)
+    (start stop : Nat) (h1 : start ≤ stop) (h2 : stop ≤ a.len) (hw : 2 ≤ stop - start) (hlt : stop - start < d0)
+    (r : Arr α) (hr : a.slice start stop = .ok r) :
+    r.shape = (stop - start) :: d1 :: t ∧ r.WF ∧
+    (stop - start) * start + (stop - start) * (d1 :: t).prod ≤ a.len ∧
+    ∀ i c, i < stop - start → inRange (d1 :: t) c = true →
+      r.get? (i :: c) = a.elems[(stop - start) * start + (i * (d1 :: t).prod + ravel (d1 :: t) c)]? := by
+  rw [slice_nd a d0 d1 t hs start stop h1 h2, if_neg (by omega), if_pos hw] at hr
+  unfold sliceWindow at hr
+  split at hr
+  · cases hr
+  · rename_i hne
+    injection hr with hr; subst hr
+    have hP : ((stop - start) :: d1 :: t).prod = (stop - start) * (d1 :: t).prod := List.prod_cons
+    rw [hP] at hne ⊢
+    refine ⟨rfl, ?_, by omega, fun i c hi hc => window_get? a.elems _ _ _ c i hi hc⟩
+    unfold Arr.WF Arr.len at *
+    simp only [List.length_take, List.length_drop, hP]; omega
+
+/-- **rows `start..stop`** (`2 ≤ w < shape[0]`): when the offset the code uses is the offset of row `start`
+(`w * start = start * row`: `start = 0`, or `w` equal to the row size) the window lies inside the first axis and
+`result[i :: c] = a[(start + i) :: c]` -/
+theorem slice_nd_rows (a : Arr α) (hwf : a.WF) (d0 d1 : Nat) (t : List Nat) (hs : a.shape = d0 :: d1 :: t)
+    (start stop : Nat) (h1 : start ≤ stop) (h2 : stop ≤ a.len) (hw : 2 ≤ stop - start) (hlt : stop - start < d0)
+    (hal : (stop - start) * start = start * (d1 :: t).prod)
+    (r : Arr α) (hr : a.slice start stop = .ok r) :
+    stop ≤ d0 ∧ r.shape = (stop - start) :: d1 :: t ∧ r.WF ∧
+    ∀ i c, i < stop - start → inRange (d1 :: t) c = true → r.get? (i :: c) = a.get? ((start + i) :: c) := by
+  obtain ⟨g1, g2, g3, g4⟩ := slice_nd_window_get a d0 d1 t hs start stop h1 h2 hw hlt r hr
+  have hlen : a.len = d0 * (d1 :: t).prod := by unfold Arr.len; rw [hwf, hs, List.prod_cons]
+  have hpos : 0 < (d1 :: t).prod := by
+    rcases Nat.eq_zero_or_pos (d1 :: t).prod with h0 | h0
+    · rw [hlen, h0] at h2; omega
+    · exact h0
+  refine ⟨?_, g1, g2, ?_⟩
+  · rw [hal, hlen, ← Nat.add_mul] at g3
+    have := Nat.le_of_mul_le_mul_right g3 hpos
+    omega
+  · intro i c hi hc
+    rw [g4 i c hi hc]
+    unfold Arr.get?
+    rw [hs]; simp only [ravel]
+    rw [hal, Nat.add_mul]; congr 1; omega
+
+/-- **windows of length 1 (and the empty range), by coordinates**: the first axis is dropped; entry `c` is the element
+at flat position `shape[1] * start + (position of c in the result)` -/
+theorem slice_nd_row_get (a : Arr α) (d0 d1 : Nat) (t : List Nat) (hs : a.shape = d0 :: d1 :: t)
+    (start stop : Nat) (h1 : start ≤ stop) (h2 : stop ≤ a.len) (hw : stop - start ≤ 1) (hlt : stop - start < d0)
+    (r : Arr α) (hr : a.slice start stop = .ok r) :
+    r.shape = d1 :: t ∧ r.WF ∧ d1 * start + (d1 :: t).prod ≤ a.len ∧
+    ∀ c, inRange (d1 :: t) c = true → r.get? c = a.elems[d1 * start + ravel (d1 :: t) c]? := by
+  rw [slice_nd a d0 d1 t hs start stop h1 h2, if_neg (by omega), if_neg (by omega)] at hr
+  unfold sliceWindow at hr
+  split at hr
+  · cases hr
+  · rename_i hne
+    injection hr with hr; subst hr
+    refine ⟨rfl, ?_, by omega, fun c hc => row_get? a.elems _ _ c hc⟩
+    unfold Arr.WF Arr.len at *
+    simp only [List.length_take, List.length_drop]; omega
+
+/-- **row `start`** (`w = 1 < shape[0]`): when `shape[1] * start = start * row` — every array of rank 2, every array
+whose axes after the second have length 1, or `start = 0` — the result is row `start`: `result[c] = a[start :: c]` -/
+theorem slice_nd_row (a : Arr α) (hwf : a.WF) (d0 d1 : Nat) (t : List Nat) (hs : a.shape = d0 :: d1 :: t)
+    (start : Nat) (h2 : start + 1 ≤ a.len) (hlt : 1 < d0) (hal : d1 * start = start * (d1 :: t).prod)
+    (r : Arr α) (hr : a.slice start (start + 1) = .ok r) :
+    start < d0 ∧ r.shape = d1 :: t ∧ r.WF ∧ ∀ c, inRange (d1 :: t) c = true → r.get? c = a.get? (start :: c) := by
+  obtain ⟨g1, g2, g3, g4⟩ := slice_nd_row_get a d0 d1 t hs start (start + 1) (by omega) h2 (by omega) (by omega) r hr
+  have hlen : a.len = d0 * (d1 :: t).prod := by unfold Arr.len; rw [hwf, hs, List.prod_cons]
+  have hpos : 0 < (d1 :: t).prod := by
+    rcases Nat.eq_zero_or_pos (d1 :: t).prod with h0 | h0
+    · rw [hlen, h0] at h2; omega
+    · exact h0
+  refine ⟨?_, g1, g2, ?_⟩
+  · rw [hal, hlen] at g3
+    have : (start + 1) * (d1 :: t).prod ≤ d0 * (d1 :: t).prod := by rw [Nat.add_mul]; omega
+    have := Nat.le_of_mul_le_mul_right this hpos
+    omega
+  · intro c hc
+    rw [g4 c hc]
+    unfold Arr.get?
+    rw [hs]; simp only [ravel]
+    rw [hal]
+
+/-- rank 2: `slice(i..i+1)` is row `i` for every in-range `i`, an error beyond the first axis -/
+theorem slice_2d_row (a : Arr α) (hwf : a.WF) (d0 d1 : Nat) (hs : a.shape = [d0, d1]) (hd : 1 < d0) (hd1 : 0 < d1) (i : Nat) :
+    (i < d0 → ∃ r, a.slice i (i + 1) = .ok r ∧ r.shape = [d1] ∧ ∀ j, j < d1 → r.get? [j] = a.get? [i, j]) ∧
+    (d0 ≤ i → a.slice i (i + 1) = .err .OutOfBounds) := by
+  have hlen : a.len = d0 * d1 := by unfold Arr.len; rw [hwf, hs]; simp
+  constructor
+  · intro hi
+    have hle : i + 1 ≤ a.len := by
+      rw [hlen]
+      have : (i + 1) * 1 ≤ d0 * d1 := Nat.mul_le_mul hi hd1
+      omega
+    have hsl := slice_nd a d0 d1 [] hs i (i + 1) (by omega) hle
+    rw [if_neg (by omega), if_neg (by omega)] at hsl
+    have hin : ¬ (([d1] : List Nat).prod = 0 ∨ a.len < d1 * i + ([d1] : List Nat).prod) := by
+      simp only [List.prod_cons, List.prod_nil, Nat.mul_one]
+      have : (i + 1) * d1 ≤ d0 * d1 := Nat.mul_le_mul_right _ hi
+      rw [Nat.add_mul, Nat.mul_comm i d1] at this
+      omega
+    unfold sliceWindow at hsl
+    rw [if_neg hin] at hsl
+    obtain ⟨_, g2, _, g4⟩ := slice_nd_row a hwf d0 d1 [] hs i hle hd (by simp [Nat.mul_comm]) _ hsl
+    refine ⟨_, hsl, g2, fun j hj => g4 [j] (by simp [inRange, hj])⟩
+  · intro hi
+    by_cases hle : i + 1 ≤ a.len
+    · have hsl := slice_nd a d0 d1 [] hs i (i + 1) (by omega) hle
+      rw [if_neg (by omega), if_neg (by omega)] at hsl
+      rw [hsl]; unfold sliceWindow
+      rw [if_pos]
+      right
+      simp only [List.prod_cons, List.prod_nil, Nat.mul_one]
+      have : d0 * d1 ≤ i * d1 := Nat.mul_le_mul_right _ hi
+      rw [Nat.mul_comm i d1] at this
+      omega
+    · exact slice_invalid a i (i + 1) (Or.inr (by omega))
+
+/-- **slice never panics** on an array of rank ≥ 1 (a rank-0 array does: `self.shape[0]`, see the examples) -/
+theorem slice_never_panics (a : Arr α) (hr : 1 ≤ a.ndim) (start stop : Nat) : a.slice start stop ≠ .panic := by
+  by_cases hv : start ≤ stop ∧ stop ≤ a.len
+  · obtain ⟨h1, h2⟩ := hv
+    match hs : a.shape with
+    | [] => unfold Arr.ndim at hr; rw [hs] at hr; simp at hr
+    | [n] => rw [slice_1d a n hs start stop h1 h2]; simp
+    | d0 :: d1 :: t =>
+      rw [slice_nd a d0 d1 t hs start stop h1 h2]
+      unfold sliceWindow
+      split
+      · simp
+      · split <;> split <;> simp
+  · rw [slice_invalid a start stop (by omega)]; simp
+
+/-! ### `indices_at` -/
+
+/-- **indices_at, 1-D**: every index below the length (any order, repetitions allowed) ⇒ the 1-D array of the
+addressed elements: `result[k] = a[indices[k]]`; an index at or beyond the length ⇒ error -/
+theorem indicesAt_1d (a : Arr α) (n : Nat) (hs : a.shape = [n]) (idx : List Nat) :
+    ((∀ i ∈ idx, i < a.len) → ∃ r, a.indicesAt idx = .ok r ∧ r.shape = [idx.length] ∧ r.WF ∧
+        ∀ k (hk : k < idx.length), r.get? [k] = a.get? [idx[k]]) ∧
+    ((∃ i ∈ idx, a.len ≤ i) → a.indicesAt idx = .err .OutOfBounds) := by
+  have hnd : a.ndim = 1 := by unfold Arr.ndim; rw [hs]; rfl
+  constructor
+  · intro hall
+    obtain ⟨ys, h1, h2, h3⟩ := mapM'_idx a.elems idx hall
+    have hany : idx.any (fun i => decide (i ≥ a.len)) = false := by
+      simp only [List.any_eq_false, decide_eq_true_eq]; intro i hi; have := hall i hi; omega
+    refine ⟨Arr.flat ys, ?_, by simp [Arr.flat, h2], by simp [Arr.flat, Arr.WF], ?_⟩
+    · unfold Arr.indicesAt
+      rw [if_pos hnd, hany]
+      simp only [Bool.false_eq_true, if_false]
+      show (Res.mapM' (Res.idx a.elems) idx >>= fun l => Res.ok (Arr.flat l)) = _
+      rw [h1, Res.bind_ok]
+    · intro k hk
+      unfold Arr.get? Arr.flat
+      simp only [hs, ravel, List.prod_nil, Nat.mul_one, Nat.add_zero]
+      rw [h3 k, List.getElem?_eq_getElem hk]; rfl
+  · rintro ⟨i, hi, hle⟩
+    have hany : idx.any (fun i => decide (i ≥ a.len)) = true := by
+      simp only [List.any_eq_true, decide_eq_true_eq]; exact ⟨i, hi, hle⟩
+    unfold Arr.indicesAt
+    rw [if_pos hnd, hany]; rfl
+
+/-- **indices_at, rank ≥ 2** (every consistent array, zero-length axes included): every index below `shape[0]` (any
+order, repetitions allowed) ⇒ shape = the input shape with the first axis replaced by the number of indices,
+consistent, and `result[k :: c] = a[indices[k] :: c]`; an index at or beyond `shape[0]` ⇒ error -/
+theorem indicesAt_nd (a : Arr α) (hwf : a.WF) (d0 d1 : Nat) (t : List Nat) (hs : a.shape = d0 :: d1 :: t)
+    (idx : List Nat) :
+    ((∀ i ∈ idx, i < d0) → ∃ r, a.indicesAt idx = .ok r ∧ r.shape = idx.length :: d1 :: t ∧ r.WF ∧
+        ∀ k (hk : k < idx.length) c, inRange (d1 :: t) c = true → r.get? (k :: c) = a.get? (idx[k] :: c)) ∧
+    ((∃ i ∈ idx, d0 ≤ i) → a.indicesAt idx = .err .OutOfBounds) := by
+  have hnd : ¬ a.ndim = 1 := by unfold Arr.ndim; rw [hs]; simp
+  have hnd0 : ¬ 0 ≥ a.ndim := by unfold Arr.ndim; rw [hs]; simp
+  have hidx : Res.idx a.shape 0 = .ok d0 := by rw [hs]; rfl
+  generalize hTdef : d1 :: t = T at *
+  have hlenE : a.elems.length = d0 * T.prod := by rw [hwf, hs, List.prod_cons]
+  have hidx' : Res.idx (d0 :: T) 0 = .ok d0 := rfl
+  constructor
+  · intro hall
+    have hany : idx.any (fun i => decide (i ≥ d0)) = false := by
+      simp only [List.any_eq_false, decide_eq_true_eq]; intro i hi; have := hall i hi; omega
+    by_cases hne : a.elems = []
+    · -- empty array: the empty result of the requested shape
+      have hemp : a.isEmpty = true := by unfold Arr.isEmpty; simp [hne]
+      have hprod : (idx.length :: T).prod = 0 := by
+        rw [hne] at hlenE
+        rcases Nat.mul_eq_zero.1 hlenE.symm with h0 | h0
+        · have : idx = [] := by
+            cases idx with
+            | nil => rfl
+            | cons x xs => have := hall x List.mem_cons_self; omega
+          simp [this]
+        · simp [h0]
+      refine ⟨⟨[], idx.length :: T⟩, ?_, rfl, by unfold Arr.WF; rw [hprod]; rfl, ?_⟩
+      · unfold Arr.indicesAt
+        rw [if_neg hnd, if_neg hnd0]
+        simp only [hs, hidx', Res.bind_ok, hany, Bool.false_eq_true, if_false, hemp, if_true, List.set_cons_zero]
+        unfold Arr.new
+        rw [if_pos (by rw [hprod]; rfl)]
+      · intro k hk c _
+        unfold Arr.get?; simp [hne]
+    · obtain ⟨hd0, hT, hrows⟩ := axis0Pieces_rows a hwf d0 T hs hne
+      have hemp : a.isEmpty = false := by
+        unfold Arr.isEmpty
+        have := List.length_pos_iff.2 hne
+        simp; omega
+      have hmap : Res.mapM' (fun i => Res.idx a.axis0Pieces i) idx
+          = .ok (idx.map (fun i => (a.elems.drop (i * T.prod)).take T.prod)) := by
+        apply sequence_map_ok
+        intro i hi
+        have := hall i hi
+        simp [Res.idx, hrows, this]
+      have hblk : ∀ l ∈ idx.map (fun i => (a.elems.drop (i * T.prod)).take T.prod), l.length = T.prod := by
+        intro l hl
+        obtain ⟨i, hi, rfl⟩ := List.mem_map.1 hl
+        have := hall i hi
+        have : (i + 1) * T.prod ≤ d0 * T.prod := Nat.mul_le_mul_right _ this
+        rw [Nat.add_mul] at this
+        simp only [List.length_take, List.length_drop]; omega
+      have hfl := length_flatten_const _ _ hblk
+      rw [List.length_map] at hfl
+      refine ⟨⟨(idx.map (fun i => (a.elems.drop (i * T.prod)).take T.prod)).flatten, idx.length :: T⟩, ?_, rfl, ?_, ?_⟩
+      · unfold Arr.indicesAt
+        rw [if_neg hnd, if_neg hnd0]
+        simp only [hs, hidx', Res.bind_ok, hany, Bool.false_eq_true, if_false, hemp, hmap, List.set_cons_zero]
+        unfold Arr.reshape Arr.new Arr.flat
+        simp only
+        rw [if_pos (by rw [hfl, List.prod_cons])]
+      · unfold Arr.WF; simp only [hfl, List.prod_cons]
+      · intro k hk c hc
+        have hrv := ravel_lt T c hc
+        unfold Arr.get?
+        simp only [hs, ravel]
+        rw [getElem?_flatten_const _ _ hblk k _ hrv]
+        simp only [List.getElem?_map, List.getElem?_eq_getElem hk, Option.map_some, Option.bind_some]
+        exact getElem?_window _ _ _ _ hrv
+  · rintro ⟨i, hi, hle⟩
+    have hany : idx.any (fun i => decide (i ≥ d0)) = true := by
+      simp only [List.any_eq_true, decide_eq_true_eq]; exact ⟨i, hi, hle⟩
+    unfold Arr.indicesAt
+    rw [if_neg hnd, if_neg hnd0]
+    simp only [hs, hidx', Res.bind_ok, hany, if_true]
+
+/-- **indices_at never panics** (every array, every rank — rank 0 is refused with an error) -/
+theorem indicesAt_never_panics (a : Arr α) (idx : List Nat) : a.indicesAt idx ≠ .panic := by
+  unfold Arr.indicesAt
+  split
+  · split
+    · simp
+    · rename_i hany
+      have hall : ∀ i ∈ idx, a.opIndex i ≠ .panic := by
+        intro i hi
+        simp only [List.any_eq_true, decide_eq_true_eq, not_exists, not_and] at hany
+        have := hany i hi
+        unfold Arr.opIndex Res.idx Arr.len at *
+        rw [List.getElem?_eq_getElem (by omega)]; simp
+      have := mapM'_never_panics (fun i => a.opIndex i) idx hall
+      cases hm : Res.mapM' (fun i => a.opIndex i) idx with
+      | panic => exact absurd hm this
+      | err e => simp
+      | ok v => simp
+  · split
+    · simp
+    · rename_i hr1 hr0
+      match hs : a.shape with
+      | [] => unfold Arr.ndim at hr0; rw [hs] at hr0; simp at hr0
+      | d0 :: T =>
+        have hidx : Res.idx (d0 :: T) 0 = .ok d0 := rfl
+        simp only [hidx, Res.bind_ok]
+        split
+        · simp
+        · rename_i hany
+          split
+          · unfold Arr.new; split <;> simp
+          · rename_i hemp
+            have hlen : a.axis0Pieces.length = d0 := by
+              unfold Arr.axis0Pieces; simp [hemp, hs]
+            have hall : ∀ i ∈ idx, Res.idx a.axis0Pieces i ≠ .panic := by
+              intro i hi
+              simp only [List.any_eq_true, decide_eq_true_eq, not_exists, not_and] at hany
+              have := hany i hi
+              unfold Res.idx
+              rw [List.getElem?_eq_getElem (by omega)]; simp
+            have := mapM'_never_panics (fun i => Res.idx a.axis0Pieces i) idx hall
+            cases hm : Res.mapM' (fun i => Res.idx a.axis0Pieces i) idx with
+            | panic => exact absurd hm this
+            | err e => simp
+            | ok v =>
+              simp only [Res.bind_ok]
+              unfold Arr.reshape Arr.new
+              split <;> simp
+
+/-- **relation to the flat operator** (C02's statement): on a 1-D array `indices_at [i]` and `slice i..i+1` both
+return the one-element array holding `a[i]` for every position below the length; at or beyond the length the two
+methods return an error value where the operator panics (`opIndex_refuses`) -/
+theorem lookup_agree_1d (a : Arr α) (n : Nat) (hs : a.shape = [n]) (i : Nat) :
+    (i < a.len → a.indicesAt [i] = (a.opIndex i).map (fun x => Arr.flat [x]) ∧
+                 a.slice i (i + 1) = (a.opIndex i).map (fun x => Arr.flat [x])) ∧
+    (a.len ≤ i → a.indicesAt [i] = .err .OutOfBounds ∧ a.slice i (i + 1) = .err .OutOfBounds ∧ a.opIndex i = .panic) := by
+  have hnd : a.ndim = 1 := by unfold Arr.ndim; rw [hs]; rfl
+  constructor
+  · intro hi
+    have hop : a.opIndex i = .ok a.elems[i] := by
+      unfold Arr.opIndex Res.idx; unfold Arr.len at hi; rw [List.getElem?_eq_getElem hi]
+    constructor
+    · unfold Arr.indicesAt
+      rw [if_pos hnd]
+      have : ([i].any fun i => decide (i ≥ a.len)) = false := by simp; omega
+      rw [this]
+      simp only [Bool.false_eq_true, if_false, Res.mapM', List.map_cons, List.map_nil, Res.sequence, hop, Res.bind_ok,
+        Res.map]
+    · rw [slice_1d a n hs i (i + 1) (by omega) (by omega), hop]
+      unfold Arr.len at hi
+      simp only [Res.map, Arr.flat, Nat.add_sub_cancel_left, List.length_singleton]
+      congr 2
+      rw [List.take_one, List.head?_drop, List.getElem?_eq_getElem hi]; rfl
+  · intro hi
+    refine ⟨(indicesAt_1d a n hs [i]).2 ⟨i, List.mem_singleton.2 rfl, hi⟩, slice_invalid a i (i + 1) (Or.inr (by omega)),
+      opIndex_refuses a i hi⟩
+
+/-! ### non-vacuity and the recorded deviations of `slice` (all checked by evaluation of the model; the same
+case lines are part of the differential tie, so the real crate answers identically) -/
+-- rows, as intended: rank 2, and a window whose length equals the row size
+example : (⟨List.range 8, [4, 2]⟩ : Arr Nat).slice 1 2 = .ok ⟨[2, 3], [2]⟩ := by decide
+example : (⟨List.range 8, [4, 2]⟩ : Arr Nat).slice 2 4 = .ok ⟨[4, 5, 6, 7], [2, 2]⟩ := by decide
+example : (⟨List.range 8, [4, 2]⟩ : Arr Nat).WF ∧ (2 - 1) < 4 ∧ 2 * 1 = 1 * [2].prod := by decide
+-- deviation 1: rank 3, window of length 1: row 1 of a [3,2,2] array is 4..7, the code returns 2..5
+example : (⟨List.range 12, [3, 2, 2]⟩ : Arr Nat).slice 1 2 = .ok ⟨[2, 3, 4, 5], [2, 2]⟩ := by decide
+-- deviation 2: window of length 2 ≠ row size 3: rows 1..3 of a [4,3] array are 3..8, the code returns 2..7
+example : (⟨List.range 12, [4, 3]⟩ : Arr Nat).slice 1 3 = .ok ⟨[2, 3, 4, 5, 6, 7], [2, 3]⟩ := by decide
+-- deviation 3 (pinned by the crate's own test_slice case 10): the range 2..3 lies outside the first axis of [2,2,2]
+example : (⟨List.range 8, [2, 2, 2]⟩ : Arr Nat).slice 2 3 = .ok ⟨[4, 5, 6, 7], [2, 2]⟩ := by decide
+-- deviation 4: a window at least as long as the first axis returns the whole array wherever it starts
+example : (⟨List.range 6, [2, 3]⟩ : Arr Nat).slice 3 6 = .ok ⟨List.range 6, [2, 3]⟩ := by decide
+-- deviation 5: the empty range returns a row
+example : (⟨List.range 6, [2, 3]⟩ : Arr Nat).slice 0 0 = .ok ⟨[0, 1, 2], [3]⟩ := by decide
+-- rank 0 (outside `slice_never_panics`): `self.shape[0]` panics
+example : (⟨[7], []⟩ : Arr Nat).slice 0 1 = .panic := by decide
+-- indices_at: any order, repetition; refusals
+example : (⟨List.range 6, [3, 2]⟩ : Arr Nat).indicesAt [2, 0, 2] = .ok ⟨[4, 5, 0, 1, 4, 5], [3, 2]⟩ := by decide
+example : (⟨List.range 6, [3, 2]⟩ : Arr Nat).indicesAt [3] = .err .OutOfBounds := by decide
+example : (⟨List.range 4, [4]⟩ : Arr Nat).indicesAt [3, 3, 0] = .ok ⟨[3, 3, 0], [3]⟩ := by decide
+-- zero-length axes: rows of an empty array are empty rows; the first axis of length 0 has no row 0
+example : (⟨[], [2, 0]⟩ : Arr Nat).indicesAt [1, 0, 1] = .ok ⟨[], [3, 0]⟩ := by decide
+example : (⟨[], [0, 0]⟩ : Arr Nat).indicesAt [0] = .err .OutOfBounds := by decide
 
 end ArrModel.C02
